@@ -74,7 +74,34 @@ func projectConfig(sql string) (proj Ev, errs int, pan int) {
 		mrPart = append(mrPart, m.PartitionBy...)
 		mrNDef, mrNMeas, mrNSub = len(m.Defines), len(m.Measures), len(m.Subsets)
 	}
+	// the string literals of the statement exactly as written (blanks and letter case inside quotes are data)
+	litSet := map[string]bool{}
+	texts := []string{cond, cfg.Having, cfg.WindowConfig.TriggerCondition}
+	texts = append(texts, cfg.SimpleFields...)
+	for _, fe := range cfg.FieldExpressions {
+		texts = append(texts, fe.Expression)
+	}
+	for _, t := range texts {
+		for i := 0; i < len(t); i++ {
+			if t[i] == '\'' {
+				j := i + 1
+				for j < len(t) && t[j] != '\'' {
+					j++
+				}
+				if j < len(t) {
+					litSet[t[i+1:j]] = true
+				}
+				i = j
+			}
+		}
+	}
+	lits := []string{}
+	for l := range litSet {
+		lits = append(lits, l)
+	}
+	sort.Strings(lits)
 	return Ev{
+		"lits":         lits,
 		"mr_within_us": mrWithin, "mr_skip": mrSkip, "mr_rows": mrRows, "mr_sym": mrSym, "mr_part": mrPart, "mr_ndef": mrNDef, "mr_nmeas": mrNMeas, "mr_nsub": mrNSub,
 		"fields": fo, "groups": groups, "where": squash(cond), "having": squash(cfg.Having), "limit": cfg.Limit, "distinct": b2i(cfg.Distinct),
 		"order": order, "joins": joins, "wtype": strings.ToLower(cfg.WindowConfig.Type), "wparams": params, "tsprop": cfg.WindowConfig.TsProp,
